@@ -9,20 +9,81 @@ from umnlib import tp, td, cq_z, cq_alts, cq_natlist
 HOST, PORT = "gopher.example", 70
 CONFIG = {"handlers.dir.DirHandler": {"cachetime": "0"}}
 
-# file name -> (gopher type, display name under extstrip none / nonencoded / full), written down from
-# conf/pygopherd.conf (mapping, extstrip) and conf/mime.types — NOT computed by the code under test
-FILES = {
-    "a.txt": ("0", "a.txt", "a", "a"),
-    "Welcome.txt": ("0", "Welcome.txt", "Welcome", "Welcome"),
-    "b.txt": ("0", "b.txt", "b", "b"),
-    "pic.gif": ("g", "pic.gif", "pic", "pic"),
-    "pygopherd.tar.gz": ("9", "pygopherd.tar.gz", "pygopherd.tar.gz", "pygopherd"),
-    "data.bin": ("9", "data.bin", "data", "data"),
-    "noext": ("0", "noext", "noext", "noext"),
-    "fred": ("0", "fred", "fred", "fred"),
-    "sub": ("1", "sub", "sub", "sub"),
-    "zeta.txt": ("0", "zeta.txt", "zeta", "zeta"),
+# file name -> (gopher type, display name under extstrip none / nonencoded / full).  Filled by build_files() from the
+# MIME / encoding tables the server reads (conf/mime.types, [pygopherd] encoding) with the DOCUMENTED rule of
+# conf/pygopherd.conf [handlers.UMN.UMNDirHandler] extstrip — not by calling the code under test:
+#   none: names as they are;  nonencoded: a known extension is dropped, but only from files that have no
+#   encoding (.gz .bz2 .Z ...);  full: the extension is dropped, and with it the encoding suffix.
+FILES = {}
+HAND_CHECKED = {       # written down by hand from the shipped tables; build_files() must agree
+    "a.txt": ("0", "a.txt", "a", "a"), "Welcome.txt": ("0", "Welcome.txt", "Welcome", "Welcome"),
+    "pic.gif": ("g", "pic.gif", "pic", "pic"), "pygopherd.tar.gz": ("9", "pygopherd.tar.gz", "pygopherd.tar.gz", "pygopherd"),
+    "data.bin": ("9", "data.bin", "data", "data"), "noext": ("0", "noext", "noext", "noext"),
+    "firmware.bin.gz": ("9", "firmware.bin.gz", "firmware.bin.gz", "firmware"), "sub": ("1", "sub", "sub", "sub"),
 }
+ENCODED = []           # the names with an encoding suffix (every generated directory gets some)
+
+
+def build_files(table, rng):
+    import posixpath
+    import re as _re
+    types, common, encs, suffix = table["types"], table["common"], table["encodings"], table["suffix"]
+
+    def guess(name):
+        base, ext = posixpath.splitext(name)
+        while ext in suffix:
+            base, ext = posixpath.splitext(base + suffix[ext])
+        enc = None
+        if ext in encs:
+            enc = encs[ext]
+            base, ext = posixpath.splitext(base)
+        ty = types.get(ext) or types.get(ext.lower()) or common.get(ext) or common.get(ext.lower())
+        return ty, enc, base
+
+    def gtype(mime):
+        for patt, ch in table["mapping"]:
+            if _re.match(patt, mime):
+                return ch
+        return "0"
+
+    def facts(name):
+        ty, enc, stem = guess(name)
+        served = "application/octet-stream" if enc else (ty or table["default"])
+        none = name
+        nonenc = name if enc else (stem if ty else name)
+        full = stem if ty else name
+        return (gtype(served), none, nonenc, full)
+    # extensions drawn from the real table: a few per MIME class, octet-stream ones and multi-dot ones included
+    byclass = {}
+    for ext, ty in sorted(types.items()):
+        if not _re.fullmatch(r"\.[A-Za-z0-9]{1,5}", ext) or ext in encs or ext in (".pyg", ".tal", ".mbox", ".gophermap"):
+            continue
+        cls = ty if ty in ("application/octet-stream", "text/plain", "text/html", "application/x-tar") else ty.split("/")[0]
+        byclass.setdefault(cls, []).append(ext)
+    exts = []
+    for cls, l in sorted(byclass.items()):
+        exts += rng.sample(l, min(len(l), 3 if cls == "application/octet-stream" else 2))
+    exts += [e for e in suffix if _re.fullmatch(r"\.[A-Za-z0-9]{1,5}", e)][:2] + [".xyz", ".bin", ".txt", ".so"]
+    encsufs = [None] + sorted(e for e in encs if e not in (".tal",))
+    stems = ["firmware", "libcodec", "notes", "Welcome", "x", "pygopherd.tar".split(".")[0]]
+    FILES.clear()
+    del ENCODED[:]
+    for n in ["a.txt", "Welcome.txt", "b.txt", "pic.gif", "pygopherd.tar.gz", "data.bin", "noext", "fred", "zeta.txt",
+              "firmware.bin.gz", "libcodec.so.bz2", "x.bin.Z"]:
+        FILES[n] = facts(n)
+    for ext in sorted(set(exts)):
+        if guess("s" + ext)[0] == "text/html":
+            continue            # the HTML title handler names these from their content
+        for enc in rng.sample(encsufs, 3):
+            n = rng.choice(stems) + ext + (enc or "")
+            FILES[n] = facts(n)
+    FILES["sub"] = ("1", "sub", "sub", "sub")
+    ENCODED.extend(sorted(n for n in FILES if guess(n)[1]))
+    wrong = {n: (FILES.get(n), v) for n, v in HAND_CHECKED.items() if FILES.get(n) != v}
+    if wrong:
+        raise RuntimeError("reference reading of extstrip disagrees with the hand-checked names: %r" % wrong)
+
+
 MODES = ["none", "nonencoded", "full"]
 
 
@@ -42,7 +103,8 @@ def gen_menu_tree(rng, dirsel, feature=None):
     -> dict(tree, dir, names, blocks per link file, caps, features)"""
     pre = dirsel.strip("/")
     pre = pre + "/" if pre else ""
-    names = rng.sample(sorted(FILES), rng.randrange(2, 7))
+    names = rng.sample(sorted(FILES), rng.randrange(2, 6))
+    names += [n for n in rng.sample(ENCODED, min(len(ENCODED), 2)) if n not in names]
     tree = []
     sidecars = {}
     for n in names:
@@ -224,11 +286,16 @@ def run(tier):
     chk.notes["code_variant"] = fx
     pre = "From Coq Require Import ZArith.\nDefinition the_fx := %s." % umnlib.cq_fixes(fx)
 
+    tres = impl_run([{"op": "c08_mimetable", "config": CONFIG}])
+    umnlib.check_ok(tres)
+    build_files(tres[0]["res"], rng)
+    cov["extstrip_names"] = {"files": len(FILES), "with_encoding": len(ENCODED), "sample": sorted(FILES)[:12]}
+
     # ---------------- K: getLinkItem / processLinkFile ----------------
     targets = ["b.txt", "fred", "sub", "zeta.txt"]
     items = []
     nwf = 400 if thorough else 140
-    nmal = 1500 if thorough else 420
+    nmal = 1500 if thorough else 300
     for i in range(nwf):
         blocks = [c08gen.gen_block(rng, targets) for _ in range(rng.randrange(0, 5))]
         text = c08gen.render_linkfile(blocks, rng.choice(["\n", "\n", "\r\n"]))
@@ -274,12 +341,25 @@ def run(tier):
 
     # ---------------- K + oracle: menus ----------------
     scenarios = dedicated()
-    for k in range(60 if thorough else 22):
+    for k in range(60 if thorough else 14):
         scenarios.append(gen_menu_tree(rng, ["/d", "/"][k % 2]))
     mjobs = [{"op": "c08_menu", "tree": sc["tree"], "dir": sc["dir"], "modes": MODES, "config": CONFIG,
               "orders": ["natural", "reversed", "rotated"]} for sc in scenarios]
-    mres = impl_run_parallel(mjobs, chunks=10)
-    umnlib.check_ok(mres)
+    import c07 as c07mod
+    hs = c07mod.history_scenarios()
+    hjobs = [{"op": "c07_history", "tree": t, "dir": "/d", "kinds": ["umn"], "edits": steps, "config": CONFIG}
+             for _, t, steps, _ in hs]
+    fresh_jobs = []
+    for _, t, steps, _ in hs:
+        cur = t
+        for st in steps:
+            cur = c07mod.apply_edits(cur, st)
+            fresh_jobs.append({"op": "c08_menu", "tree": cur, "dir": "/d", "modes": ["nonencoded"], "config": CONFIG,
+                               "orders": ["natural"]})
+    allres = impl_run_parallel(mjobs + hjobs + fresh_jobs, chunks=16)
+    umnlib.check_ok(allres)
+    mres = allres[:len(mjobs)]
+    hres = allres[len(mjobs):]
     mcases = []
     mcmeta = []
     reported = set()
@@ -347,19 +427,6 @@ def run(tier):
                                "enumeration_a": o1["enum"], "menu_a": menus[o1["order"]],
                                "enumeration_b": o2["enum"], "menu_b": menus[o2["order"]]}, tag="c08-enum-order")
     # ---------------- histories: metadata edited within the same second, one process ----------------
-    import c07 as c07mod
-    hs = c07mod.history_scenarios()
-    hjobs = [{"op": "c07_history", "tree": t, "dir": "/d", "kinds": ["umn"], "edits": steps, "config": CONFIG}
-             for _, t, steps, _ in hs]
-    fresh_jobs = []
-    for _, t, steps, _ in hs:
-        cur = t
-        for st in steps:
-            cur = c07mod.apply_edits(cur, st)
-            fresh_jobs.append({"op": "c08_menu", "tree": cur, "dir": "/d", "modes": ["nonencoded"], "config": CONFIG,
-                               "orders": ["natural"]})
-    hres = impl_run_parallel(hjobs + fresh_jobs, chunks=12)
-    umnlib.check_ok(hres)
     fresh = hres[len(hjobs):]
     k = 0
     nhist = 0
